@@ -62,6 +62,9 @@ FNS = {
     'Plane.multiply': lambda L, p, w: p.multiply(w),
     'w*p': lambda L, w, p: w * p,
     'p*w': lambda L, p, w: p * w,
+    'w*=p': lambda L, w, p: __import__('operator').imul(w, p),
+    'asfortran': lambda L, a: np.asfortranarray(a),
+    'transposed_view': lambda L, a: np.ascontiguousarray(np.asarray(a).T).T,
     'Plane.fit_tilt': lambda L, p, inplace=False: p.fit_tilt(inplace=inplace),
     'Plane.copy': _method('copy'),
     'Plane.rescale': _method('rescale'),
